@@ -11,9 +11,10 @@ Term forms (tuples):
 import ast
 import collections
 
+from .report import AnalysisError
 from .srcmodel import own_statements
 
-MAXDEPTH = 24
+MAXDEPTH = 14
 
 
 def _store_names(t):
@@ -21,12 +22,85 @@ def _store_names(t):
 
 
 class Resolver:
-    def __init__(self, model, fn):
+    def __init__(self, model, fn, flow=True):
+        """flow=True: names are resolved through the definitions *reaching* the use (CFG-based
+        reaching definitions); flow=False: through all definitions of the function."""
         self.m = model
         self.fn = fn
         self.defs = collections.defaultdict(list)  # name -> [(kind, node, path)]
+        self._memo = {}
+        self.flow = flow
+        self.cfg = None
         self.selfname = fn.params[0] if (fn.cls and fn.is_method and not fn.is_staticmethod and fn.params) else None
         self._collect()
+        if self.flow:
+            try:
+                self._reaching()
+            except AnalysisError:
+                self.flow = False
+
+    # ------------------------------------------------------------------ reaching definitions
+    def _reaching(self):
+        from .cfg import CFG
+
+        cfg = self.cfg = CFG(self.fn.node)
+        # definition sites: (name, idx) -> cfg node
+        self.def_node = {}
+        gen = collections.defaultdict(set)
+        for name, lst in self.defs.items():
+            for idx, (desc, path) in enumerate(lst):
+                st = self.def_stmt.get((name, idx))
+                nid = cfg.by_ast.get(id(st)) if st is not None else None
+                if nid is None:
+                    self.def_node[(name, idx)] = None  # flow-insensitive definition (walrus, comprehension)
+                    continue
+                self.def_node[(name, idx)] = nid
+                gen[nid].add((name, idx))
+        always = {k for k, v in self.def_node.items() if v is None}
+        IN = collections.defaultdict(set)
+        OUT = collections.defaultdict(set)
+        params = {(p, -1) for p in self.fn.params}
+        OUT[cfg.ENTRY] = set(params)
+        work = list(cfg.kind)
+        while work:
+            n = work.pop()
+            if n == cfg.ENTRY:
+                new_in = set()
+            else:
+                new_in = set()
+                for (p, lab) in cfg.pred[n]:
+                    new_in |= OUT[p]
+                    if lab == "exc":
+                        new_in |= IN[p]
+            g = gen.get(n, ())
+            if g:
+                killed = {nm for nm, _ in g}
+                new_out = {d for d in new_in if d[0] not in killed} | set(g)
+            else:
+                new_out = new_in
+            if n == cfg.ENTRY:
+                new_out = set(params)
+            if new_in != IN[n] or new_out != OUT[n]:
+                IN[n] = new_in
+                OUT[n] = new_out
+                for (q, lab) in cfg.succ[n]:
+                    work.append(q)
+        self.IN = IN
+        self.always = always
+
+    def _at(self, e):
+        """CFG node at which expression e is evaluated (None = unknown -> flow-insensitive)."""
+        if not self.flow:
+            return None
+        x = e
+        while x is not None:
+            nid = self.cfg.by_ast.get(id(x))
+            if nid is not None:
+                return nid
+            x = getattr(x, "_parent", None)
+            if x is self.fn.node:
+                return None
+        return None
 
     # ------------------------------------------------------------------ definitions
     def _bind(self, target, value_desc):
@@ -35,6 +109,7 @@ class Resolver:
 
         def rec(t, path):
             if isinstance(t, ast.Name):
+                self.def_stmt[(t.id, len(self.defs[t.id]))] = self._cur_stmt
                 self.defs[t.id].append((value_desc, path))
             elif isinstance(t, (ast.Tuple, ast.List)):
                 for i, x in enumerate(t.elts):
@@ -46,8 +121,15 @@ class Resolver:
 
         rec(target, ())
 
+    def _add_def(self, name, desc, st):
+        self.def_stmt[(name, len(self.defs[name]))] = st
+        self.defs[name].append((desc, ()))
+
     def _collect(self):
+        self.def_stmt = {}
+        self._cur_stmt = None
         for st in own_statements(self.fn.node):
+            self._cur_stmt = st
             if isinstance(st, ast.Assign):
                 for t in st.targets:
                     self._bind(t, ("val", st.value))
@@ -55,7 +137,7 @@ class Resolver:
                 self._bind(st.target, ("val", st.value))
             elif isinstance(st, ast.AugAssign):
                 if isinstance(st.target, ast.Name):
-                    self.defs[st.target.id].append((("aug", st), ()))
+                    self._add_def(st.target.id, ("aug", st), st)
             elif isinstance(st, (ast.For, ast.AsyncFor)):
                 self._bind(st.target, ("elem", st.iter))
             elif isinstance(st, (ast.With, ast.AsyncWith)):
@@ -65,29 +147,45 @@ class Resolver:
             elif isinstance(st, ast.Try):
                 for h in st.handlers:
                     if h.name:
-                        self.defs[h.name].append((("exc", h), ()))
+                        self._add_def(h.name, ("exc", h), h)
             elif isinstance(st, (ast.FunctionDef, ast.ClassDef)):
-                self.defs[st.name].append((("def", st), ()))
+                self._add_def(st.name, ("def", st), st)
             elif isinstance(st, (ast.Import, ast.ImportFrom)):
                 for al in st.names:
-                    self.defs[(al.asname or al.name).split(".")[0]].append((("import", st, al), ()))
+                    self._add_def((al.asname or al.name).split(".")[0], ("import", st, al), st)
         # walrus and comprehension targets
+        self._cur_stmt = None
         for n in ast.walk(self.fn.node):
             if isinstance(n, ast.NamedExpr) and isinstance(n.target, ast.Name):
-                self.defs[n.target.id].append((("val", n.value), ()))
+                self._add_def(n.target.id, ("val", n.value), None)
 
     # ------------------------------------------------------------------ terms
-    def term(self, e, _visiting=frozenset(), _depth=0, _compenv=None):
+    def term(self, e, _visiting=frozenset(), _depth=0, _compenv=None, at="auto"):
+        """Normalised term of expression e.  `at` is the CFG node at which e is evaluated
+        ("auto": found from e's position; None: flow-insensitive)."""
+        if at == "auto":
+            at = self._at(e) if (self.flow and e is not None) else None
         if _depth > MAXDEPTH:
-            return ("expr", ast.unparse(e)[:80])
+            return ("deep",)
+        if _compenv is None:
+            mk = (id(e), _visiting, at)
+            hit = self._memo.get(mk)
+            if hit is not None:
+                return hit
+            r = self._term(e, _visiting, _depth, None, at)
+            self._memo[mk] = r
+            return r
+        return self._term(e, _visiting, _depth, _compenv, at)
+
+    def _term(self, e, _visiting, _depth, _compenv, at):
         d = _depth + 1
-        T = lambda x, ce=_compenv: self.term(x, _visiting, d, ce)
+        T = lambda x, ce=_compenv: self.term(x, _visiting, d, ce, at)
         if e is None:
             return ("const", None)
         if isinstance(e, ast.Constant):
             return ("const", e.value)
         if isinstance(e, ast.Name):
-            return self._name(e.id, _visiting, d, _compenv)
+            return self._name(e.id, _visiting, d, _compenv, at)
         if isinstance(e, ast.Attribute):
             if self.selfname and isinstance(e.value, ast.Name) and e.value.id == self.selfname and e.value.id not in self.defs:
                 return ("field", e.attr)
@@ -125,10 +223,10 @@ class Resolver:
             ce = dict(_compenv or {})
             iters = []
             for g in e.generators:
-                it = self.term(g.iter, _visiting, d, ce)
+                it = self.term(g.iter, _visiting, d, ce, at)
                 iters.append(it)
                 self._bind_comp(g.target, ("elem", it), ce)
-            return ("gen", self.term(e.elt, _visiting, d, ce), tuple(iters))
+            return ("gen", self.term(e.elt, _visiting, d, ce, at), tuple(iters))
         if isinstance(e, ast.Lambda):
             return ("lambda", ast.unparse(e))
         if isinstance(e, ast.Starred):
@@ -149,7 +247,7 @@ class Resolver:
 
         rec(target, base)
 
-    def _name(self, name, visiting, d, compenv):
+    def _name(self, name, visiting, d, compenv, at=None):
         if compenv and name in compenv:
             return compenv[name]
         is_param = name in self.fn.params
@@ -162,26 +260,34 @@ class Resolver:
             # closure variable of an enclosing function?
             p = self.fn.parent
             if p is not None:
-                pr = Resolver(self.m, p) if not hasattr(self, "_parent_res") else self._parent_res
-                self._parent_res = pr
+                pr = getattr(self, "_parent_res", None)
+                if pr is None:
+                    pr = self._parent_res = Resolver(self.m, p, flow=False)
                 if name in pr.defs or name in p.params:
-                    return ("outer", pr.term(ast.Name(id=name, ctx=ast.Load())))
+                    return ("outer", pr.term(ast.Name(id=name, ctx=ast.Load()), at=None))
             return ("name", name)
+        reaching = None
+        if self.flow and at is not None:
+            reaching = {idx for (nm, idx) in self.IN[at] if nm == name}
+            reaching |= {idx for (nm, idx) in self.always if nm == name}
         alts = []
-        if is_param:
+        if is_param and (reaching is None or -1 in reaching):
             alts.append(("param", self.fn.params.index(name), name))
         for idx, (desc, path) in enumerate(defs):
+            if reaching is not None and idx not in reaching:
+                continue
             if (name, idx) in visiting:
                 continue  # a definition that refers to the name sees the *other* definitions
             vis = visiting | {(name, idx)}
+            dat = self.def_node.get((name, idx)) if self.flow else None
             kind = desc[0]
             if kind == "val":
-                t = self.term(desc[1], vis, d, compenv)
+                t = self.term(desc[1], vis, d, compenv, dat)
             elif kind == "elem":
-                t = ("elem", self.term(desc[1], vis, d, compenv))
+                t = ("elem", self.term(desc[1], vis, d, compenv, dat))
             elif kind == "aug":
                 st = desc[1]
-                t = ("op", "aug" + type(st.op).__name__, (self._name(name, vis, d, compenv), self.term(st.value, vis, d, compenv)))
+                t = ("op", "aug" + type(st.op).__name__, (self._name(name, vis, d, compenv, dat), self.term(st.value, vis, d, compenv, dat)))
             elif kind == "def":
                 t = ("localdef", desc[1].name)
             elif kind == "exc":
@@ -200,6 +306,8 @@ class Resolver:
             if t not in alts:
                 alts.append(t)
         if not alts:
+            if is_param:
+                return ("param", self.fn.params.index(name), name)
             return ("cyc", name)
         if len(alts) == 1:
             return alts[0]
